@@ -235,7 +235,7 @@ fn compute(
     }
 }
 
-const HDR: &str = "DEFFRAME 0 \"x\":\n    SAMPLE-RATE: 4.0\nDEFFRAME 0 \"y\":\n    SAMPLE-RATE: 8.0\nDEFFRAME 1 \"x\":\n    SAMPLE-RATE: 4.0\nDEFFRAME 0 1 \"z\":\n    SAMPLE-RATE: 4.0\nDEFFRAME 2 \"n\":\n    INITIAL-FREQUENCY: 1.0\nDEFWAVEFORM w4:\n    1, 1, 1, 1\nDEFWAVEFORM w2:\n    1, 1\nDEFCAL A 0:\n    PULSE 0 \"x\" flat(duration: 1.0, iq: 1.0)\nDEFCAL B 0 1:\n    FENCE 1\n    PULSE 0 1 \"z\" flat(duration: 1.0, iq: 1.0)\nDEFCAL C q:\n    DELAY q 0.5\n    A q\n    SHIFT-PHASE q \"x\" 1.0\nDEFCAL RX(%t) 0:\n    SHIFT-PHASE 0 \"x\" %t\n    PULSE 0 \"x\" w4\n    NONBLOCKING PULSE 0 \"y\" w4\nDEFCAL MEASURE 0 addr:\n    CAPTURE 0 \"y\" flat(duration: 0.25, iq: 1.0) addr\nDEFCAL G 0:\n    NONBLOCKING PULSE 0 \"y\" flat(duration: 1.0, iq: 1.0)\n    NONBLOCKING PULSE 0 \"x\" flat(duration: 10.0, iq: 1.0)\nDEFCAL H 0:\n    NONBLOCKING PULSE 0 \"x\" flat(duration: 4.0, iq: 1.0)\n    NONBLOCKING PULSE 0 \"y\" flat(duration: 0.5, iq: 1.0)\nDEFCAL KF 0 1:\n    NONBLOCKING PULSE 1 \"x\" flat(duration: 0.5, iq: 1.0)\n    NONBLOCKING PULSE 0 \"x\" flat(duration: 3.0, iq: 1.0)\n    NONBLOCKING CAPTURE 0 \"y\" flat(duration: 1.5, iq: 1.0) ro[0]\n    FENCE 0 1\nDEFCAL K3 0 1:\n    NONBLOCKING PULSE 0 \"x\" flat(duration: 2.0, iq: 1.0)\n    NONBLOCKING PULSE 1 \"x\" flat(duration: 5.0, iq: 1.0)\n    NONBLOCKING PULSE 0 \"y\" flat(duration: 0.25, iq: 1.0)\nDEFCAL N 0:\n    G 0\n    H 0\nDEFCAL D 0 1:\n    DELAY 0 \"x\" 2.0\n    DELAY 1 \"x\" 0.25\n    DELAY 0 \"y\" 1.0\n";
+const HDR: &str = "DEFFRAME 0 \"x\":\n    SAMPLE-RATE: 4.0\nDEFFRAME 0 \"y\":\n    SAMPLE-RATE: 8.0\nDEFFRAME 1 \"x\":\n    SAMPLE-RATE: 4.0\nDEFFRAME 0 1 \"z\":\n    SAMPLE-RATE: 4.0\nDEFFRAME 2 \"n\":\n    INITIAL-FREQUENCY: 1.0\nDEFWAVEFORM w4:\n    1, 1, 1, 1\nDEFWAVEFORM w2:\n    1, 1\nDEFWAVEFORM ramp(%duration):\n    1, 1, 1, 1\nDEFWAVEFORM padded(%pad_left, %pad_right, %amp):\n    1, 1\nDEFCAL A 0:\n    PULSE 0 \"x\" flat(duration: 1.0, iq: 1.0)\nDEFCAL B 0 1:\n    FENCE 1\n    PULSE 0 1 \"z\" flat(duration: 1.0, iq: 1.0)\nDEFCAL C q:\n    DELAY q 0.5\n    A q\n    SHIFT-PHASE q \"x\" 1.0\nDEFCAL RX(%t) 0:\n    SHIFT-PHASE 0 \"x\" %t\n    PULSE 0 \"x\" w4\n    NONBLOCKING PULSE 0 \"y\" w4\nDEFCAL MEASURE 0 addr:\n    CAPTURE 0 \"y\" flat(duration: 0.25, iq: 1.0) addr\nDEFCAL G 0:\n    NONBLOCKING PULSE 0 \"y\" flat(duration: 1.0, iq: 1.0)\n    NONBLOCKING PULSE 0 \"x\" flat(duration: 10.0, iq: 1.0)\nDEFCAL H 0:\n    NONBLOCKING PULSE 0 \"x\" flat(duration: 4.0, iq: 1.0)\n    NONBLOCKING PULSE 0 \"y\" flat(duration: 0.5, iq: 1.0)\nDEFCAL KF 0 1:\n    NONBLOCKING PULSE 1 \"x\" flat(duration: 0.5, iq: 1.0)\n    NONBLOCKING PULSE 0 \"x\" flat(duration: 3.0, iq: 1.0)\n    NONBLOCKING CAPTURE 0 \"y\" flat(duration: 1.5, iq: 1.0) ro[0]\n    FENCE 0 1\nDEFCAL K3 0 1:\n    NONBLOCKING PULSE 0 \"x\" flat(duration: 2.0, iq: 1.0)\n    NONBLOCKING PULSE 1 \"x\" flat(duration: 5.0, iq: 1.0)\n    NONBLOCKING PULSE 0 \"y\" flat(duration: 0.25, iq: 1.0)\nDEFCAL N 0:\n    G 0\n    H 0\nDEFCAL D 0 1:\n    DELAY 0 \"x\" 2.0\n    DELAY 1 \"x\" 0.25\n    DELAY 0 \"y\" 1.0\n";
 
 const CORPUS: &[&str] = &[
     // schedule.rs tests (durations made dyadic)
@@ -270,6 +270,21 @@ const CORPUS: &[&str] = &[
     // stream: `TimeSpan::union` returning [first.start, second.end] is wrong exactly when one span contains the other)
     "CAPTURE 0 \"y\" flat(duration: 0.5, iq: ro[1]) ro[0]\nMOVE ro[1] 1\n",
     "CAPTURE 0 \"y\" flat(duration: 0.5, iq: ro[1]) ro[0]\nPULSE 0 \"y\" flat(duration: 1.0, iq: ro[0])\n",
+    // a DEFINED waveform's duration is sample count / sample rate whatever its arguments, also arguments named
+    // duration / pad_left / pad_right (missed by an earlier version of this stream)
+    "PULSE 0 \"x\" ramp(duration: 0.5)\nPULSE 0 \"x\" flat(duration: 1.0)\n",
+    "PULSE 0 \"y\" ramp(duration: 8.0, pad_left: 0.25)\nFENCE\nPULSE 0 \"x\" padded(pad_left: 1.0, pad_right: 0.5, amp: 1.0)\n",
+    "CAPTURE 0 \"x\" ramp(duration: 0.25) ro[0]\nPULSE 0 \"x\" w4(duration: 2.0)\n",
+    "PULSE 2 \"n\" ramp(duration: 0.5)\n",
+    "PULSE 3 \"u\" ramp(duration: 0.5)\n",
+    // a user-defined waveform named like a template: the definition wins (program.waveforms is looked up first)
+    "DEFWAVEFORM flat(%duration, %iq):\n    1, 1\nPULSE 0 \"x\" flat(duration: 3.0, iq: 1.0)\nPULSE 0 \"x\" flat(duration: 1.0, iq: 1.0)\n",
+    // template waveforms without a constant duration; expression durations: no duration
+    "PULSE 0 \"x\" flat(duration: 2*0.5, iq: 1.0)\n",
+    "PULSE 0 \"x\" flat(duration: ro[0], iq: 1.0)\n",
+    "DELAY 0 \"x\" 2*0.5\n",
+    "RAW-CAPTURE 0 \"x\" 2*0.25 ro[0]\n",
+    "PULSE 0 \"x\" erf_square(duration: 1.0, pad_left: 2*0.25, pad_right: 0.5)\nPULSE 0 \"x\" flat(duration: 1.0)\n",
     "G 0\n",
     "H 0\n",
     "G 0\nH 0\n",
@@ -293,6 +308,8 @@ const ALPHABET: &[&str] = &[
     "B 0 1",
     "CAPTURE 0 \"y\" flat(duration: 0.75) ro[0]",
     "NONBLOCKING CAPTURE 0 \"x\" flat(duration: 0.5, iq: ro[1]) ro[0]",
+    "PULSE 0 \"x\" ramp(duration: 0.5)",
+    "NONBLOCKING CAPTURE 0 \"y\" ramp(duration: 8.0, pad_right: 1.0) ro[0]",
     "G 0",
     "H 0",
     "K3 0 1",
@@ -332,7 +349,25 @@ fn random_line(rng: &mut Rng) -> String {
             let pr = *rng.pick(&D);
             format!("{nb}PULSE {f} erf_square(duration: {d}, pad_left: 0.25, pad_right: {pr})")
         }
-        4 | 5 => format!("{nb}PULSE {f} {}", if rng.chance(1, 2) { "w4" } else { "w2" }),
+        4 | 5 => {
+            // defined waveforms, bare or with arguments (also arguments named like the template parameters)
+            let pr = *rng.pick(&D);
+            let w = match rng.below(8) {
+                0 => "w4".to_string(),
+                1 => "w2".to_string(),
+                2 => format!("ramp(duration: {d})"),
+                3 => format!("ramp(duration: {d}, pad_left: {pr})"),
+                4 => format!("padded(pad_left: {d}, pad_right: {pr}, amp: 1.0)"),
+                5 => format!("w4(duration: {d})"),
+                6 => format!("w2(scale: {d}, pad_right: {pr})"),
+                _ => "ramp".to_string(),
+            };
+            if rng.chance(1, 4) {
+                format!("{nb}CAPTURE {f} {w} ro[0]")
+            } else {
+                format!("{nb}PULSE {f} {w}")
+            }
+        }
         6 => {
             if rng.chance(1, 2) {
                 format!("{nb}CAPTURE {f} flat(duration: {d}, iq: 1.0) ro[0]")
@@ -368,7 +403,13 @@ fn random_line(rng: &mut Rng) -> String {
         },
         24 => "MEASURE 0 ro[0]".to_string(),
         21 => format!("SET-SCALE {f} 1.0"),
-        22 => format!("PULSE {f} flat(iq: 1.0)"),
+        22 => match rng.below(5) {
+            0 => format!("PULSE {f} flat(iq: 1.0)"),
+            1 => format!("PULSE {f} flat(duration: 2*{d}, iq: 1.0)"),
+            2 => format!("DELAY {f} 2*{d}"),
+            3 => format!("RAW-CAPTURE {f} {d}+{d} ro[0]"),
+            _ => format!("CAPTURE {f} erf_square(duration: {d}, pad_left: ro[1]) ro[0]"),
+        },
         _ => match rng.below(6) {
             0 => "RESET 0".to_string(),
             1 => "MOVE ro[0] 1".to_string(),
@@ -421,7 +462,7 @@ fn run(ctx: &mut Ctx) {
             case(ctx, "enum", &format!("{HDR}{body}"));
         });
     }
-    let n_random = if quick { 6000 } else { 400_000 };
+    let n_random = if quick { 6000 } else { 300_000 };
     let mut rng = ctx.rng(25);
     for _ in 0..n_random {
         let bound = if rng.chance(1, 4) { 16 } else { 8 };
@@ -435,6 +476,8 @@ fn run(ctx: &mut Ctx) {
             body.push_str("HALT\n");
         }
         let cal = random_calibration(&mut rng);
-        case(ctx, "random", &format!("{HDR}{cal}{body}"));
+        // sometimes the user DEFINES a waveform named like a template: the definition wins for every `flat(...)`
+        let user_flat = if rng.chance(1, 8) { "DEFWAVEFORM flat(%duration, %iq):\n    1, 1\n" } else { "" };
+        case(ctx, "random", &format!("{HDR}{user_flat}{cal}{body}"));
     }
 }
